@@ -16,7 +16,7 @@ META = {
                    "token's offset) the flagged constructs and their lines move exactly with the tokens.",
     "assumptions": ["the parser yields the same tree, up to locations, for token-identical re-layouts (trusted)",
                     "string literals are single tokens whose content the detectors compare only as token content (e.g. revert string length)"],
-    "floors": {"R17.text": 6, "R17.signature": 30, "R17.opaque": 3, "R17.comments": 3},
+    "floors": {"R17.text": 6, "R17.signature": 30, "R17.opaque": 3, "R17.comments": 3, "R17.lines": 1},
 }
 
 LOC_ACCESSORS = ("Loc::start", "Loc::end", "Loc::begin_range", "Loc::end_range", "Loc::range", "Loc::use_start_from", "Loc::use_end_from", "Loc::file_no", "Loc::try_file_no")
@@ -65,6 +65,16 @@ def run(ctx, crate):
                 tb.local_ty(0).startswith("std::collections::HashSet<solang_parser::pt::Loc")
             obs.append(Ob("R17.signature", s.path, "detector for %s sees only the parse tree" % v, ok,
                           expected="fn(SourceUnit) -> HashSet<Loc>", found="(%s) -> %s" % (", ".join(tb.local_ty(i) for i in range(1, tb.arg_count + 1)), tb.local_ty(0)) if tb else None))
+    # R17.lines: the reported lines move exactly with the tokens: the line lookup counts line-feed bytes before the token's byte offset
+    from rules import C02 as _c02
+    lb = crate.bodies.get(D.LINE_FN)
+    if lb is None:
+        obs.append(Ob("R17.lines", D.LINE_FN, "anchor missing", False))
+    else:
+        canon, why = _c02.canonical_count(crate, lb)
+        obs.append(Ob("R17.lines", D.LINE_FN, "the line of a finding is a function of the token's byte offset and the line feeds before it only", canon,
+                      expected="1 + number of LF bytes before the byte offset (so white space, comments and multi-byte characters before a token shift its line exactly)",
+                      found=why, example="a comment made of multi-byte characters above a flagged construct"))
     # R17.opaque
     det = D.detector_bodies(crate)
     n_calls = 0
